@@ -34,6 +34,10 @@ HIST = {
     "reset-twice": ["set1", "resp", "seed", "sens", "reset", "reset", "set2", "resp", "seed", "sens"],
     "three-cycles": ["set1", "resp", "seed", "sens", "reset", "set3", "resp", "seed", "sens", "reset", "set2", "resp", "seed", "sens"],
     "resp-after-sens": ["set1", "resp", "seed", "sens", "resp", "reset", "set2", "resp", "seed", "sens"],
+    # several seed/sensitivity/reset passes after ONE response, seeding different outputs (work buffers of a module that
+    # reset() cannot clear): last output first, then the first output only
+    "partial-seeds": ["set1", "resp", "seedL", "sens", "reset", "seed0", "sens"],
+    "partial-seeds-2": ["set1", "resp", "seed0", "sens", "reset", "seedL", "sens", "reset", "set2", "resp", "seed0", "sens"],
 }
 
 
@@ -47,6 +51,8 @@ def items(tier):
     for t in temps:
         for h in HIST:
             if q and h in ("three-cycles",) and t not in ("linsolve-dense", "overhang"):
+                continue
+            if h.startswith("partial-seeds") and t not in ("sysofeq", "linsolve-dense", "poisson-linsolve", "statcond"):
                 continue
             out.append(dict(kind="history", id="%s-%s" % (t, h), template=t, hist=h))
         out.append(dict(kind="unseeded", id="%s-unseeded" % t, template=t))
@@ -236,6 +242,7 @@ def _snapall(N):
 def sc_history(V, P, cfg):
     N = make(V, cfg["template"])
     last = None
+    last_which = "all"
     k = 0
     for stp in HIST[cfg["hist"]]:
         if stp.startswith("set"):
@@ -246,6 +253,10 @@ def sc_history(V, P, cfg):
             N.net.response()
         elif stp == "seed":
             _seed(V, N, k)
+            last_which = "all"
+        elif stp in ("seed0", "seedL"):
+            last_which = [0] if stp == "seed0" else [len(N.outputs) - 1]
+            _seed(V, N, k, which=last_which)
         elif stp == "sens":
             N.net.sensitivity()
         elif stp == "reset":
@@ -258,7 +269,7 @@ def sc_history(V, P, cfg):
     F = make(V, cfg["template"])
     F.set(last)
     F.net.response()
-    _seed(V, F, last)
+    _seed(V, F, last, which=last_which)
     F.net.sensitivity()
     fresh_snap = _snapall(F)
     obs = {}
